@@ -247,6 +247,9 @@ func looseFor(op string) float64 {
 }
 
 func check(c Case) *Failure {
+	if c.Op == "Seq" {
+		return checkSeq(c)
+	}
 	// an integer-typed reader of a float operand that does not fit: implementation-defined conversion, excluded
 	reader := c.TC
 	switch genericName(c.Op) {
@@ -611,18 +614,8 @@ func check(c Case) *Failure {
 		}
 		return nil
 	case "Pow":
-		x, y := refF64(c.A[0]), refF64(c.A[1])
-		if !(x > 0) || math.IsInf(x, 0) || math.IsNaN(y) || math.IsInf(y, 0) {
-			return nil
-		}
-		want := math.Exp(y * math.Log(x))
-		if math.IsInf(want, 0) || want == 0 {
-			return nil
-		}
-		if !agrees(c.TC, got, want, math.Abs(want)*math.Abs(y*math.Log(x))*1e-2) {
-			return fail("Pow:value", "result differs from x^y", fstr(want))
-		}
-		return nil
+		// round 6: the whole special-case table (negative base with integer exponent, 0^0, 1^Inf, +-Inf, NaN), see pow.go
+		return checkPow(c, res, fail)
 	case "LogAdd", "LogSub":
 		if !isF(c.TC) || !isF(c.TT[0]) {
 			return nil
@@ -729,6 +722,31 @@ func check(c Case) *Failure {
 		sum := new(big.Float).SetPrec(300)
 		scale := 0.0
 		var want float64
+		if g == "Vnorm" || g == "Mnorm" {
+			nonfin := false
+			s2 := 0.0
+			for _, x := range xs {
+				if math.IsNaN(x) || math.IsInf(x, 0) {
+					nonfin = true
+				}
+				s2 += x * x
+			}
+			if nonfin {
+				// non-finite elements: IEEE arithmetic on the squares (Inf^2 = +Inf also for -Inf, NaN propagates)
+				if !isF(c.TC) {
+					return nil
+				}
+				w := math.Sqrt(s2)
+				if g == "Mnorm" && !math.IsNaN(s2) {
+					w = s2 // +Inf either way
+				}
+				gf := got.fl()
+				if !(gf == w || (math.IsNaN(w) && math.IsNaN(gf))) {
+					return fail(g+":special", "norm of a vector with non-finite elements differs from the IEEE value of sqrt(sum x^2)", fstr(w))
+				}
+				return nil
+			}
+		}
 		switch g {
 		case "Vmean":
 			if !isF(c.TC) {
